@@ -46,7 +46,7 @@ def sign_patterns(run, tier, rng):
                                                ("c.npz", {"compress": True}, {}), ("s.bin", {}, {"force_as": "file"}),
                                                ("noext", {}, {"force_as": "file"})):
                             k += 1
-                            path = os.path.join(tmp, "%d_%s" % (k, fn))
+                            path = os.path.join(tmp, "%d.stats_%s" % (k, fn))  # (a name with more than one dot: the kind is the LAST suffix)
                             run.evaluations += 1
                             try:
                                 s.save(path, **skw)
@@ -88,7 +88,7 @@ def sign_patterns(run, tier, rng):
         for fn, lkw in (("w.bin", {"force_as": "file"}), ("w.npy", {}), ("w.npz", {}), ("w_noext", {"force_as": "file"})):
             for (d1, d2) in ((40, 13), (13, 40), (6, 2), (5, 4)):
                 k += 1
-                path = os.path.join(tmp, "%d_%s" % (k, fn))
+                path = os.path.join(tmp, "%d.stats_%s" % (k, fn))  # (a name with more than one dot: the kind is the LAST suffix)
                 wide, narrow = post.Standardize(), post.Standardize()
                 wide.accumulate(nprng.randn(9, d1) * 2 + 1)
                 narrow.accumulate(nprng.randn(9, d2) * 3 - 1)
